@@ -368,7 +368,7 @@ def tasks(tier, seed):
           dict(id="C14.periodic_tables", fn="task_periodic_tables", kwargs={}, timeout=60),
           dict(id="C14.lookup", fn="task_lookup", kwargs=dict(tier=tier), timeout=1200)]
     if tier == "thorough":
-        for n_ in range(4, 34):
+        for n_ in range(4, 21):
             if n_ not in (9, 16):
                 ts.append(dict(id="C14.fractions.%d" % n_, fn="task_fractions", kwargs=dict(nsub=n_), timeout=1800))
     return ts
